@@ -28,6 +28,7 @@ from typing import (
     cast,
 )
 
+from sqlfluff.core.errors import SQLParseError
 from sqlfluff.core.helpers.identity import get_next_id
 from sqlfluff.core.helpers.slice import is_zero_slice
 from sqlfluff.core.parser.context import ParseContext
@@ -1354,7 +1355,14 @@ class BaseSegment(metaclass=SegmentMetaclass):
             # Edge case for empty segments which are allowed to be empty.
             return True
         ctx.seed_parse_nodes(len(trimmed_content))
-        rematch = self.match(trimmed_content, 0, ctx)
+        try:
+            rematch = self.match(trimmed_content, 0, ctx)
+        except SQLParseError as err:
+            # e.g. the parse depth limit is hit by the reparse although the
+            # original parse (which starts one level shallower) stayed just
+            # inside it. That's a failed validation, not a crash.
+            linter_logger.debug(f"Validation Check Fail for {self}. {err}")
+            return False
         if not rematch.matched_slice == slice(0, len(trimmed_content)):
             linter_logger.debug(
                 f"Validation Check Fail for {self}.Incomplete Match. "
